@@ -118,6 +118,29 @@ Definition swap_dep (x y : nat) (done : gset positive)
     incref p ;;; incref q ;;;
     ret (garbage, xfresh)) (∅, ∅) lx.
 
+(** the pre-check of [swap] (dd 6c37b8b): [sum(map(depends_on_y, all_levels[x]))],
+    the number of nodes in [all_levels[x]] with a child at level [y].  Nothing is
+    written; a junk entry raises [KeyError] ([self._succ[...]]) or [TypeError]
+    ([abs(None)]).  The set is visited in sorted order: the order can only decide
+    WHICH of these exceptions is met first. *)
+Definition child_level (v : Z) : MS nat :=
+  if decide (v = 0%Z) then raise EType else t <- getsucc (absn v) ;; ret (t_lvl t).
+
+Definition dep_count (y : nat) (Sx : gset positive) : MS nat :=
+  foldM (fun (k : nat) u =>
+    t <- getsucc u ;;
+    iv <- child_level (t_lo t) ;;
+    if decide (iv = y) then ret (S k) else
+    iw <- child_level (t_hi t) ;;
+    if decide (iw = y) then ret (S k) else ret k) 0 (elements Sx).
+
+(** [not (len(self._succ) + n_new >= self.max_nodes - 1)] *)
+Definition swap_fits (mx : option positive) (n k : nat) : bool :=
+  match mx with
+  | None => true
+  | Some m => bool_decide (n + 2 * k + 1 < Pos.to_nat m)
+  end.
+
 (** [var_at_level(level)] *)
 Definition var_at_level (l : nat) : MS nat :=
   s <- get ;; of_opt EValue (lvl2var s !! l).
@@ -138,8 +161,10 @@ Definition swap (x y : nat) (all_levels : option levels_t)
   let '(x, y) := if decide (y < x) then (y, x) else (x, y) in
   ensure EValue (bool_decide (x < y)) ;;;
   ensure EValue (bool_decide (y - x = 1)) ;;;
-  let oldsize := len s in
   Sx <- of_opt EKey (al !! x) ;;
+  k <- dep_count y Sx ;;
+  ensure ERuntime (swap_fits (max_nodes s) (len s) k) ;;;
+  let oldsize := len s in
   ox <- pop_order Sx ;;
   lx <- swap_collect x ox ;;
   Sy <- of_opt EKey (al !! y) ;;
@@ -325,8 +350,16 @@ Definition try_to_reorder {A} (func : MS A) : MS A :=
   | Ok a => ret a
   | Err e =>
       if decide (e = ENeedsReordering ∧ nested = false) then
+        (* disable reordering requests while swapping; when [reorder] raises
+           (dd 854af5f: [except BaseException]) the threshold is put back *)
+        s0 <- get ;;
+        let ll := last_len s0 in
         modify (fun s => s <| last_len := None |>) ;;;
-        reorder None ;;;
+        r0 <- catch (reorder None) ;;
+        (match r0 with
+         | Ok _ => ret tt
+         | Err e0 => modify (fun s => s <| last_len := ll |>) ;;; raise e0
+         end) ;;;
         s <- get ;;
         let len_after := len s in
         let nested := rctx s in
